@@ -374,6 +374,7 @@ type AssertHint struct {
 	Anchor string
 	Clause *Clause
 	used   bool
+	matchedAt map[int]bool // statement positions the anchor matched (more than one: ambiguous)
 	// proof by case split: the assertion is proved separately for every value lo..hi of a local integer variable
 	CaseVar string
 	CaseLo  int64
